@@ -10,14 +10,23 @@ Import ListNotations.
 Section WS.
   Context {B : Type}.
 
+  (* the next frame that carries something: an EMPTY binary frame hands nothing to the reader and is passed over (a read
+     that returned "no bytes, no error" a hundred times in a row makes bufio give the connection up) *)
+  Fixpoint next_frame (frames : list (list B)) : option (list B * list (list B)) :=
+    match frames with
+    | [] => None
+    | [] :: fs => next_frame fs
+    | (x :: d) :: fs => Some (x :: d, fs)
+    end.
+
   Definition ws_read (rem : list B) (frames : list (list B)) (blen : nat)
     : option (list B * list B * list (list B)) :=
     match rem with
     | _ :: _ => Some (firstn blen rem, skipn blen rem, frames)
     | [] =>
-        match frames with
-        | [] => None
-        | d :: fs => Some (firstn blen d, skipn blen d, fs)
+        match next_frame frames with
+        | None => None
+        | Some (d, fs) => Some (firstn blen d, skipn blen d, fs)
         end
     end.
 
